@@ -211,7 +211,7 @@ Definition at_A5 (s : st) (t i p : nat) : Prop := held (thr s t) i = p /\ p <> 0
 
 (* ---------- the sequentially consistent counterpart ----------
    No buffers: a store writes memory, a load reads memory, the fence is a
-   no-op; there is no [fenced] parameter.  [Flush] is never enabled. *)
+   no-op; there is no [fenced] switch.  [Flush] is never enabled. *)
 Record sst := mkSS {
   smem : loc -> nat; sthr : nat -> tst; snxt : nat; sfreed : list nat; suaf : bool }.
 
